@@ -8,7 +8,7 @@ from harness.props import c03 as _c03
 
 PROP = 'C08'
 LEAN_MODULES = ['Glom.Props.C08']
-FACT_FILES = ['ExcFacts']
+FACT_FILES = ['ExcFacts', 'InterpFacts', 'c03']
 READY = True
 RULE = ('spec trees of depth <= 3 (quick) / 4 (thorough) built from nestings of Fill / Auto / Match / Group wrappers placed '
         'at every step position of tuples and Pipes, as dict values, Coalesce branches, Switch keys and values, And/Or '
@@ -41,7 +41,17 @@ RULE = ('spec trees of depth <= 3 (quick) / 4 (thorough) built from nestings of 
 TRUSTED = ['Python primitives are parameters of the theorems (`Prims`); their executable instantiation is validated by '
            'the correspondence only',
            'the accumulating dict/list specs of Group mode are C16 (here Group wraps probes, T, callables, nested wrappers)']
-ASSUMPTIONS = ['self-referential containers in argument position (the id()-memo of _ArgValuator) are outside the tree-shaped Spec type: '
+ASSUMPTIONS = ['READING (C08-1): "containers" are instances of EXACTLY dict / list / tuple / set / frozenset (core.py FILL / _ArgValuator.mode test '
+               'type(spec) in (...), facts ifFill / ifArgVal); an instance of a subclass (OrderedDict, namedtuple, defaultdict, a list subclass) is '
+               'a literal in Fill / argument position: the very object of the spec, its T leaves unevaluated (C02: non-T arguments are passed '
+               'through literally). Modelled for OrderedDict: the model yields `specobj`, the harness recognises the object by identity',
+               'READING (C08-3): "argument position" = Coalesce / Check / Match / Optional / Switch / And / Or defaults, call arguments, assigned '
+               'values, S() / Vars values; glom()\'s own default= is "the default object itself" (C04): glom(t, "zz", default=[T["a"]]) returns '
+               'that list',
+               'Fill(<self-referential container>) recurses without end (RecursionError): the property limits cycles to argument position; a cycle '
+               'through a spec OBJECT (a list holding a Spec that holds the list) and the collapse of computed dict keys '
+               '(Fill({T["a"]: "p", 1: "q"}) with t["a"] == 1) are not generated',
+               'self-referential containers in argument position (the id()-memo of _ArgValuator) are outside the tree-shaped Spec type: '
                'they are a heap of list / dict / tuple nodes (Glom/Spec/C08.lean); the Lean reference `rebuild` is PROVED to terminate '
                'on every heap whose tuple-only reference paths are acyclic (c08_rebuild_terminates; the generated heaps satisfy the '
                'decidable sufficient condition tuplesForward, checked by the driver) and to yield a graph isomorphic to the reachable '
@@ -362,10 +372,12 @@ def run_impl(case):
         except Exception as e:
             r = {'err': ic.exc_name(e)}
         else:
+            ic.SPEC_LITERALS[:] = fns.get(('spec-literals',), [])
             try:
                 r = {'ok': ic.enc(res)}
             except ValueError as ve:
                 r = {'err': 'Unencodable:' + str(ve)[:80]}
+            del ic.SPEC_LITERALS[:]
         del ic.LOG[:]
         if r != out['impl']:
             out['impl_rerun_same'] = False
